@@ -1,6 +1,6 @@
 (* OCaml driver for the extracted C14 model: same op stream as `persist_harness ops`
    (harness/persist_harness.cpp); prints one line per DUMP / DUMPF / PRB op.
-   usage: persist_driver <g> <e> <k>   (the Variant booleans decided by the DETECT op) *)
+   usage: persist_driver <g> <e> <k> <t>   (the Variant booleans decided by the DETECT op) *)
 open Persist_model
 
 (* ---- numbers: 64-bit values travel as unsigned decimal strings ---- *)
@@ -74,7 +74,8 @@ let content (s : state) : string =
 
 let () =
   let flag i = Array.length Sys.argv > i && Sys.argv.(i) = "1" in
-  let v = { clear_resets_generation = flag 1; clear_clears_evalcache = flag 2; evalkey_has_contempt = flag 3 } in
+  let v = { clear_resets_generation = flag 1; clear_clears_evalcache = flag 2; evalkey_has_contempt = flag 3;
+            tbabort_drops_tb = flag 4 } in
   let st = ref fresh in
   let do_cmd c = st := step v ex_oracle !st c in
   let write w = st := apply_write Z0 !st w in
@@ -116,8 +117,12 @@ let () =
        | ["KCLEAR"] -> st := { !st with st_killers = killers_clear }
        | ["EV"; idx; data] -> write (WEval (n_of_string idx, n_of_string data))
        | "UPDTB" :: maxt :: kind :: _ ->
-           let (t, rt) = tt_updateTB !st.st_tt !st.st_requiredTime
+           let (t, rt) = tt_updateTB v.tbabort_drops_tb !st.st_tt !st.st_requiredTime
                            (if kind = "-1" then None else Some (n_of_string kind)) (z_of_string maxt) true Z0 in
+           st := { !st with st_tt = t; st_requiredTime = rt }
+       | "UPDTBA" :: kind :: _ ->
+           let (t, rt) = tt_updateTB v.tbabort_drops_tb !st.st_tt !st.st_requiredTime
+                           (Some (n_of_string kind)) (z_of_int (-1)) false Z0 in
            st := { !st with st_tt = t; st_requiredTime = rt }
        | ["DUMP"] -> print_endline (frame !st ^ content !st)
        | ["DUMPF"] ->
